@@ -169,9 +169,12 @@ def permute_class_mappings(nspec, value, rng, failing):
                     extras.add(k[2])
                     continue
                 under = k[2].replace('-', '_')
+                # (_yatiml_extra is where the extras are kept, no parameter
+                # a key could stand for)
+                pnames = set(args) - {'_yatiml_extra'}
                 # a dashed key stands in for the underscored parameter only
                 # when that is not itself present; otherwise it is an extra
-                if k[2] not in args and (under not in args or (
+                if k[2] not in pnames and (under not in pnames or (
                         under != k[2] and under in present)):
                     extras.add(k[2])
         if not is_class:
